@@ -1,5 +1,6 @@
 /- The fact values the C10 theorems are proved for (and the oracle runs the model with). -/
 import EinoV.Model.C10
+import EinoV.Model.C10Builtin
 namespace EinoV.Expected.C10
 def appendHandlersCopies : Bool := true
 def onCopies : Bool := true
@@ -22,4 +23,16 @@ def lambdaNodeOwnsRunnable : Bool := true
 def cfacts : EinoV.C10.CFacts := ⟨runHasDeferredBlock, deferStartsIfMissing, wrapperOnErrorAlways, toolRunInfoUnconditional⟩
 /-- the parameters of the unit machine -/
 def facts : EinoV.C10.Facts := ⟨appendHandlersCopies, onCopies, startReversed⟩
+/-- the self-firing built-in components report every error / panic path (Model/C10Builtin.lean) -/
+def tplErrDeferred : Bool := true
+def tplStartEndUnconditional : Bool := true
+def taskErrReported : Bool := true
+def taskPanicReported : Bool := true
+def routeErrReported : Bool := true
+def routerFusionErrReported : Bool := true
+def mqFusionErrReported : Bool := true
+def routerDefaultInstalled : Bool := true
+def bfacts : EinoV.C10.BFacts :=
+  ⟨tplErrDeferred, tplStartEndUnconditional, taskErrReported, taskPanicReported, routeErrReported,
+   routerFusionErrReported, mqFusionErrReported, routerDefaultInstalled⟩
 end EinoV.Expected.C10
